@@ -49,7 +49,7 @@ CHECKS["C12"] = dict(
  design_ref="DESIGN.md 4.2, 5/C12")
 CHECKS["C18"] = dict(
  text="Catalogue.tla models a simulation directory that grows by whole restarts (three shapes incl. single-iteration restarts, level-dependent strides, continuing or re-running from the previous start) and the catalogue state (append-only record list of iterations.txt, content.txt per restart) under every interleaving of iterations(skip_last)/read_iterations()/get_content(restart, overwrite) with new restarts; TLC checks append-only/no-duplicate/records-exist/IncrementalEqualsFresh and enumerates the behaviours. Each behaviour is replayed on generated directories: returned structures equal Scan(disk) per restart, iterations.txt and content.txt parse back to what was returned, repeated calls are identities, 'overall' covers exactly the union of the restarts' iterations, the incrementally built catalogue equals a fresh scan of a copy; simulation names contain 'restart', 'arange', 'rl'. Dataset-key, file-name and checkpoint-name parsing is inverted over enumerated component alphabets.",
- note="<= 3 restarts and 4 steps exhaustive (quick replays a 1-in-k subsample of ~2500 behaviours; thorough all plus simulated 7-step behaviours with 4 restarts). A raising first call leaves an empty iterations.txt which read_iterations() parses as {} (modelled, not asserted against). Restart directories are immutable once written.",
+ note="<= 3 restarts and 4 steps exhaustive (quick replays a 1-in-k subsample of ~2500 of the enumerated behaviours, thorough ~20000 plus simulated 7-step behaviours with 4 restarts). A raising first call leaves an empty iterations.txt which read_iterations() parses as {} (modelled, not asserted against). Restart directories are immutable once written.",
  technique="TLA+ model of the growing simulation directory and catalogue files enumerated by TLC; behaviours replayed on generated directories with the real iterations/read_iterations/get_content and the files re-parsed",
  design_ref="DESIGN.md 4.3, 5/C18")
 CHECKS["C14"] = dict(
